@@ -8,7 +8,7 @@ PY = "/venv/bin/python"
 m = {
  "version": 1,
  "setup_cmd": f"{PY} -m compileall -q /verif/dst",
- "hooks": {"guard": "FIBERTREE_VERIF", "enable": "none needed: every seam is reached by rebinding module-level names (open, os, random, FileReadBackwards) inside the simulator process; /repo carries no hook", "baseline_off_cmd": "cd /repo && /venv/bin/python -m pytest -ra -q -p no:cacheprovider --timeout=900 --continue-on-collection-errors", "source_commits": [], "add_only": True},
+ "hooks": {"guard": "FIBERTREE_VERIF", "enable": "none needed: every seam is reached by rebinding module-level names (open, os, random, FileReadBackwards; os.write for the duration of a dump) inside the simulator process; /repo carries no hook", "baseline_off_cmd": "cd /repo && /venv/bin/python -m pytest -ra -q -p no:cacheprovider --timeout=900 --continue-on-collection-errors", "source_commits": [], "add_only": True},
  "engines": [{"name": "dst", "path": "/verif/dst", "serves_properties": sorted(CHECKS), "kind_free_text": "deterministic simulation with fault injection: seeded scheduler over cooperative tasks (live generators), file/PRNG/session seams, reference models, ddmin shrinker, JSON replay"}],
  "checks": [], "notes": NOTES, "not_applicable": NOT_APPLICABLE}
 for pid in sorted(CHECKS):
